@@ -338,7 +338,7 @@ func (x *Exec) alloc(st *State) *Term {
 
 // bumpAlloc: after an opaque call the allocation frontier is unknown but not lower.
 func (x *Exec) bumpAlloc(st *State) {
-	nb := x.vc.fresh("alloc", IntS)
+	nb := x.fresh("alloc", IntS)
 	x.vc.assume(Ge(nb, st.allocTop()))
 	st.allocBase, st.allocK = nb, 0
 	for w := st.wlog; w != nil; w = w.parent {
@@ -570,7 +570,7 @@ func (x *Exec) merge(a, b *State) *State {
 		n.allocBase = a.allocBase
 		n.allocK = max(a.allocK, b.allocK)
 	} else {
-		nb := x.vc.fresh("alloc", IntS)
+		nb := x.fresh("alloc", IntS)
 		x.vc.assume(And(Ge(nb, a.allocTop()), Ge(nb, b.allocTop())))
 		n.allocBase, n.allocK = nb, 0
 	}
